@@ -379,25 +379,7 @@ func checkSpecEngineIndependence(c *Ctx, r *Report) {
 		r.count("swagen_functions_scanned", n)
 	}
 	// (iii) generators do not mutate the shared IR (so the result does not depend on which generator ran first)
-	{
-		allowed := map[string]string{
-			"generator/swagen/swagtool.AppendErrorSchema:<elem>": "appends the RFC-7807 model to the caller's Models.Structs (by design; the routes templates read only Models.Enums)",
-		}
-		var ss []string
-		viol := ""
-		muts := w.irMutations([]string{"generator/", "core/validators", "cmd"})
-		for _, m := range muts {
-			ss = append(ss, m.Pos)
-			if _, ok := allowed[m.Fn+":"+m.Field]; !ok {
-				viol = fmt.Sprintf("%s: %s writes %s of an existing IR value (reached through %s): the metadata is shared between the spec and routes generators, so output would depend on which ran first / on the engine", m.Pos, m.Fn, m.Field, m.Root)
-			}
-		}
-		if len(muts) == 0 {
-			viol = "expected the tabled AppendErrorSchema site (rule would pass vacuously)"
-		}
-		o := r.add("C13.c", "whowrites", "generators:no-IR-mutation", "generators, validators and cmd only read the flattened metadata (definitions.*); the single tabled exception is AppendErrorSchema", keysOf(allowed), ss, viol)
-		o.NonTrivial = true
-	}
+	ruleNoIRMutation(c, r, "C13.c")
 	// (iv) templates: the engine-specific parts never feed back (routes context is built from, not into, the metadata)
 	if fi := need(c, r, "C13.c", "generator/routes.GetTemplateContext"); fi != nil {
 		viol := ""
@@ -428,4 +410,26 @@ func isGleeceCallee(n string) bool {
 		}
 	}
 	return false
+}
+
+// ruleNoIRMutation: generators, validators and cmd only read the flattened metadata.
+func ruleNoIRMutation(c *Ctx, r *Report, clause string) {
+	w := c.W
+	allowed := map[string]string{
+		"generator/swagen/swagtool.AppendErrorSchema:<elem>": "appends the RFC-7807 model to the caller's Models.Structs (by design; the routes templates read only Models.Enums)",
+	}
+	var ss []string
+	viol := ""
+	muts := w.irMutations([]string{"generator/", "core/validators", "cmd"})
+	for _, m := range muts {
+		ss = append(ss, m.Pos)
+		if _, ok := allowed[m.Fn+":"+m.Field]; !ok {
+			viol = fmt.Sprintf("%s: %s writes %s of an existing IR value (reached through %s): the metadata is shared between the spec and routes generators, so what one generator sees would depend on which ran first / on the engine", m.Pos, m.Fn, m.Field, m.Root)
+		}
+	}
+	if len(muts) == 0 {
+		viol = "expected the tabled AppendErrorSchema site (rule would pass vacuously)"
+	}
+	o := r.add(clause, "whowrites", "generators:no-IR-mutation", "generators, validators and cmd only read the flattened metadata (definitions.*); the single tabled exception is AppendErrorSchema", keysOf(allowed), ss, viol)
+	o.NonTrivial = true
 }
